@@ -1,5 +1,6 @@
 (* C01 — value round trip: parsing what was dumped gives the value back. *)
-From VF Require Import Model.Writer Proofs.CodecCorrect Proofs.SizeProps Proofs.RoundTrip Proofs.ValueRoundTrip Gen.GeneratedOk.
+From Coq Require Import Lia.
+From VF Require Import Model.Writer Proofs.CodecCorrect Proofs.SizeProps Proofs.RoundTrip Proofs.ValueRoundTrip Proofs.ValueRoundTripDyn Gen.GeneratedOk.
 Open Scope string_scope. Open Scope list_scope. Open Scope Z_scope.
 
 (* For every configuration with a proper byte order, every sequential type with fixed counts (`flat` and `rt_ty`: integers of every width
@@ -15,6 +16,13 @@ Theorem entry_point_round_trip : forall c, endian_ok (c_endian c) -> forall t, f
   forall v bs rest, has_ty c t v -> dumps c t v = Ok bs ->
     exists v', read_top c t (bs ++ rest) 0 = Ok (v', zlen bs) /\ strip v' = strip v.
 Proof. exact read_top_dumps. Qed.
+(* The same for length-prefixed data: array counts that are EXPRESSIONS over earlier fields (x[n], x[k * 2], x[n - 1], also inside nested
+   structures and as inner dimensions).  A value is typed under the expression context the reader will have when it meets it
+   (`has_tyc`: for an array, the count expression evaluates - over the values of the fields before it - to the number of elements held). *)
+Theorem value_round_trip_dynamic : forall c, endian_ok (c_endian c) -> forall fuel t, flat t = true -> dyn_ty c t = true ->
+  forall ctx v wpos bs, has_tyc c t ctx v -> write_ty c t v wpos = Ok bs ->
+    forall pre rest, exists v', read_ty c fuel t (pre ++ bs ++ rest) (zlen pre) ctx = Ok (v', zlen pre + zlen bs) /\ strip v' = strip v.
+Proof. exact parse_dump_identity_dyn. Qed.
 (* writing never alters a number: a value that does not fit the width is rejected, a value that fits decodes to itself *)
 Theorem out_of_range_is_rejected : forall e n signed v, fits n signed v = false -> int_to_bytes e n signed v = Err ERange.
 Proof. exact int_reject. Qed.
@@ -28,6 +36,7 @@ Proof. exact ileb_roundtrip. Qed.
 
 Print Assumptions value_round_trip.
 Print Assumptions entry_point_round_trip.
+Print Assumptions value_round_trip_dynamic.
 Print Assumptions out_of_range_is_rejected.
 
 (* non-vacuity *)
@@ -56,4 +65,29 @@ Example ex_run : exists bs, dumps ex_cfg ex_ty ex_val = Ok bs /\ zlen bs = 27 /\
   rvz_eqb (read_top ex_cfg ex_ty (bs ++ [9; 9]) 0) (Ok (VStruct [("a", VInt (-70000)); ("l", VInt (-300)); ("d", VList [VInt (-2); VInt 515]); ("s", VBytes [104; 105; 0]);
                               ("in", VStruct [("p", VInt 4096); ("f", VFloat 1065353216)] [("p", 4); ("f", 4)]);
                               ("g", VList [VList [VInt 1; VInt 300]; VList [VInt 0; VInt 70000]])] [("a", 3); ("l", 2); ("d", 4); ("s", 3); ("in", 8); ("g", 7)], 27)) = true.
+Proof. eexists. split; [vm_compute; reflexivity|]. split; vm_compute; reflexivity. Qed.
+
+(* non-vacuity of the dynamic theorem: counts n, k * 2, n - 1 and an inner count inside an array of structures *)
+Definition exd_ty := TStruct "m" [Fld "n" false u8 None None; Fld "d" false (TArr (TPrim (PInt 2 true true) 2) (LExpr ["n"] false)) None None;
+                                  Fld "k" false u8 None None; Fld "s" false (TArr (TPrim PChar 1) (LExpr ["k"; "*"; "2"] false)) None None;
+                                  Fld "r" false (TArr (TStruct "i" [Fld "c" false u8 None None; Fld "v" false (TArr u8 (LExpr ["c"] false)) None None] false) (LExpr ["n"; "-"; "1"] false)) None None] false.
+Definition exd_val := VStruct [("n", VInt 2); ("d", VList [VInt (-2); VInt 515]); ("k", VInt 1); ("s", VBytes [104; 105]);
+                               ("r", VList [VStruct [("c", VInt 3); ("v", VList [VInt 7; VInt 8; VInt 9])] []])] [].
+Example exd_class : flat exd_ty = true /\ dyn_ty ex_cfg exd_ty = true.
+Proof. vm_compute. split; reflexivity. Qed.
+Example exd_typed : has_tyc ex_cfg exd_ty [] exd_val.
+Proof.
+  cbn [has_tyc exd_ty exd_val]. eexists _, _. split; [reflexivity|]. split; [reflexivity|].
+  cbn [lookup_field String.eqb Ascii.eqb Bool.eqb int_ctx has_tyc u8 prim_val].
+  repeat split.
+  - eexists. split; [reflexivity|]. split; [vm_compute; reflexivity|]. split; [vm_compute; reflexivity|]. repeat constructor.
+  - eexists. split; [reflexivity|]. split; vm_compute; [reflexivity|discriminate].
+  - eexists. split; [reflexivity|]. split; [vm_compute; reflexivity|]. split; [vm_compute; reflexivity|]. constructor; [|constructor].
+    cbn [has_tyc]. eexists _, _. split; [reflexivity|]. split; [reflexivity|]. cbn [lookup_field String.eqb Ascii.eqb Bool.eqb int_ctx has_tyc u8 prim_val]. repeat split.
+    eexists. split; [reflexivity|]. split; [vm_compute; reflexivity|]. split; [vm_compute; reflexivity|]. repeat constructor.
+Qed.
+Example exd_run : exists bs, dumps ex_cfg exd_ty exd_val = Ok bs /\ zlen bs = 12 /\
+  rvz_eqb (read_top ex_cfg exd_ty (bs ++ [9; 9]) 0)
+          (Ok (VStruct [("n", VInt 2); ("d", VList [VInt (-2); VInt 515]); ("k", VInt 1); ("s", VBytes [104; 105]);
+                        ("r", VList [VStruct [("c", VInt 3); ("v", VList [VInt 7; VInt 8; VInt 9])] [("c", 1); ("v", 3)]])] [("n", 1); ("d", 4); ("k", 1); ("s", 2); ("r", 4)], 12)) = true.
 Proof. eexists. split; [vm_compute; reflexivity|]. split; vm_compute; reflexivity. Qed.
